@@ -47,7 +47,10 @@ def generate(seed, tier):
     codes = S['swarm'].sample(['CA', 'US', 'JP', 'UK'], n)
     econs = []
     for i, code in enumerate(codes):
-        kind = S['swarm'].choice(['closed', 'closed_fin', 'capitalists', 'pc', 'builder:SIM', 'builder:SIMEX1', 'builder:PC'])
+        kind = S['swarm'].choice(['closed', 'closed_fin', 'capitalists', 'pc', 'builder:SIM', 'builder:SIMEX1', 'builder:PC',
+                                  'federated'])
+        if kind == 'federated' and any(e['kind'] == 'federated' for e in econs):
+            kind = 'closed'          # region codes of the federated family are fixed: at most one per model
         econs.append({'kind': kind, 'seed': core.run_seed(seed, 'embed', 'x', i), 'code': code})
     return {'kind': 'ECON', 'twin': 'embed', 'family': 'embed', 'seed': seed, 'tight': tight, 'T': T,
             'economies': econs, 'external': S['swarm'].choice([None, None, 'first', 'last'])}
@@ -80,7 +83,7 @@ def simplify(case):
             c['external'] = None
             yield c
         for i, e in enumerate(case['economies']):
-            if e['kind'] != 'closed':
+            if e['kind'] not in ('closed', 'federated'):
                 c = core.deep_copy(case)
                 c['economies'][i]['kind'] = 'closed'
                 yield c
@@ -228,6 +231,12 @@ def economy_ops(e, T, tight, standalone):
         return ops
     cmap = {c: code for c in ('CA', 'US', 'C1', 'X')}
     sub, info = econgen.gen_program(e['seed'], family=e['kind'], tight=tight, T=T, cmap=cmap, with_main=False)
+    if e['kind'] == 'federated':
+        # the federation's currency is stated explicitly (pairwise different currencies is the premise);
+        # its member regions take the default currency, as the library's own REG2 builder does
+        for op in sub:
+            if op['op'] == 'Region' and op['code'] == 'GOV':
+                op['currency'] = 'FED_' + code
     out = []
     pre = 'e_%s_' % code
     for op in sub:
@@ -295,8 +304,10 @@ def execute_embed(case, stats):
     joint += knob_ops(T, tight) + [{'op': 'main', 'model': 'm0'}]
     sj, rj = econprops.run_and_series(joint)
     (oj, mj), xj = rj['m0']
-    codes = [e['code'] for e in case['economies']]
-    stats['probes']['embedded_%d' % len(codes)] = 1
+    codes = [e['code'] for e in case['economies'] if e['kind'] != 'federated']
+    stats['probes']['embedded_%d' % len(case['economies'])] = 1
+    if any(e['kind'] == 'federated' for e in case['economies']):
+        stats['probes']['federation_embedded'] = 1
     if case.get('external'):
         stats['probes']['unused_external_sector'] = 1
     tol = econprops.tolerance_of(joint)
@@ -327,15 +338,25 @@ def execute_embed(case, stats):
             continue
         stats['both_solved'] = stats.get('both_solved', 0) + 1
         pre = e['code'] + '_'
-        sub = {k[len(pre):]: v for k, v in xj.items() if k.startswith(pre)}
-        alone_s = {embed_name(k, e['code'], xa): v for k, v in xa.items() if k not in ('k', 't')}
+        if e['kind'] == 'federated':
+            # a federation is multi-country already when alone: its names are the same in the joint model
+            fed_codes = sorted(set(k.split('_')[0] for k in xa if '__' in k))
+            sub = {k: v for k, v in xj.items() if '__' in k and k.split('_')[0] in fed_codes}
+            alone_s = {k: v for k, v in xa.items() if k not in ('k', 't')}
+        else:
+            sub = {k[len(pre):]: v for k, v in xj.items() if k.startswith(pre)}
+            alone_s = {embed_name(k, e['code'], xa): v for k, v in xa.items() if k not in ('k', 't')}
         d = econprops.compare_series(alone_s, sub, max(econprops.FINAL_REL, 50 * tol))
         if d is not None and d[2] != float('inf') and tol > 1e-12:
             _s1, r1 = econprops.run_and_series(econprops.with_tight(alone))
             _s2, r2 = econprops.run_and_series(econprops.with_tight(joint))
             if r1['m0'][0][0] == 'ok' and r2['m0'][0][0] == 'ok':
-                sub2 = {k[len(pre):]: v for k, v in r2['m0'][1].items() if k.startswith(pre)}
-                al2 = {embed_name(k, e['code'], r1['m0'][1]): v for k, v in r1['m0'][1].items() if k not in ('k', 't')}
+                if e['kind'] == 'federated':
+                    sub2 = {k: v for k, v in r2['m0'][1].items() if '__' in k and k.split('_')[0] in fed_codes}
+                    al2 = {k: v for k, v in r1['m0'][1].items() if k not in ('k', 't')}
+                else:
+                    sub2 = {k[len(pre):]: v for k, v in r2['m0'][1].items() if k.startswith(pre)}
+                    al2 = {embed_name(k, e['code'], r1['m0'][1]): v for k, v in r1['m0'][1].items() if k not in ('k', 't')}
                 d = econprops.compare_series(al2, sub2, econprops.FINAL_REL)
                 if d is None:
                     stats['noise_discarded'] = stats.get('noise_discarded', 0) + 1
